@@ -752,6 +752,48 @@ fn gen_textlist(r: &mut Rng) -> TextList {
     }
 }
 
+/// A recursive document tree: a struct variant that itself has a `$value` list of the same enum, so the same
+/// variant occurs as the root's child and as an item of a `$value` list at every deeper level
+#[derive(Serialize, Deserialize, Debug, PartialEq, Clone)]
+pub enum Node {
+    #[serde(rename = "s_group")]
+    Group {
+        #[serde(rename = "@a_name")]
+        name: String,
+        #[serde(rename = "$value", default)]
+        children: Vec<Node>,
+    },
+    #[serde(rename = "t_leaf")]
+    Leaf(String),
+    #[serde(rename = "u_mark")]
+    Mark,
+    #[serde(rename = "s_pair")]
+    Pair {
+        #[serde(rename = "@a_k")]
+        k: u8,
+        t_v: String,
+    },
+}
+#[derive(Serialize, Deserialize, Debug, PartialEq, Clone)]
+#[serde(rename = "s_tree")]
+pub struct Tree {
+    #[serde(rename = "@a_k")]
+    pub k: u8,
+    #[serde(rename = "$value", default)]
+    pub nodes: Vec<Node>,
+    }
+fn gen_node(r: &mut Rng, depth: usize) -> Node {
+    match r.below(if depth >= 3 { 3 } else { 5 }) {
+        0 => Node::Leaf(gen_string(r, Pos::Text)),
+        1 => Node::Mark,
+        2 => Node::Pair { k: r.next() as u8, t_v: gen_string(r, Pos::Text) },
+        _ => Node::Group { name: gen_string(r, Pos::Attr), children: (0..r.below(4)).map(|_| gen_node(r, depth + 1)).collect() },
+    }
+}
+fn gen_tree(r: &mut Rng) -> Tree {
+    Tree { k: r.next() as u8, nodes: (0..gen_len(r).min(4)).map(|_| gen_node(r, 0)).collect() }
+}
+
 /// the element choices used by $value
 #[derive(Serialize, Deserialize, Debug, PartialEq, Clone)]
 pub enum Choice {
@@ -1547,6 +1589,7 @@ pub fn family() -> Vec<TypeOps> {
         ops!(OptTextEl, "OptTextEl", gen = gen_opttextel, rows = &["named-children-and-optional-$text", "list:elements-unit"]),
         ops!(Protocols, "Protocols", gen = gen_protocols, rows = &["serializer-protocol:collect_str", "serializer-protocol:serialize_key+serialize_value"]),
         ops!(NamePrefix, "NamePrefix", gen = gen_nameprefix, rows = &["names-that-are-prefixes-of-one-another"]),
+        ops!(Tree, "Tree", gen = gen_tree, rows = &["$value:recursive-struct-variants-with-$value-lists"]),
         TypeOps {
             name: "Borrowing",
             gen: Some(|r: &mut Rng| -> Box<dyn Val> { Box::new(gen_borrowtwin(r)) }),
